@@ -1443,4 +1443,495 @@ theorem pristine_address_space' (h : Heap S) (tasks : List Task)
 
 end final
 
+
+/-! ## phase 2: process-level state, worker lifetimes, un-copyable learners -/
+
+theorem putAt_flatten {α} (x : α) : ∀ (k : Nat) (ls : List (List α)), (putAt k x ls).flatten ~ ls.flatten ++ [x]
+  | _, [] => by simp [putAt]
+  | 0, l :: ls => by
+    simp only [putAt, flatten_cons, append_assoc]
+    exact (perm_append_left_iff l).2 perm_append_comm
+  | k + 1, l :: ls => by
+    simp only [putAt, flatten_cons, append_assoc]
+    exact (perm_append_left_iff l).2 (putAt_flatten x k ls)
+
+theorem foldl_putAt_flatten {α} (f : α × Nat → Nat) : ∀ (l : List (α × Nat)) (acc : List (List α)),
+    (l.foldl (fun acc ci => putAt (f ci) ci.1 acc) acc).flatten ~ acc.flatten ++ l.map (·.1)
+  | [], acc => by simp
+  | ci :: l, acc => by
+    simp only [foldl_cons, map_cons]
+    refine (foldl_putAt_flatten f l _).trans ?_
+    have := (putAt_flatten ci.1 (f ci) acc).append_right (l.map (·.1))
+    simpa [append_assoc] using this
+
+/-- every chunk is pulled by exactly one worker -/
+theorem livesOf_flatten {α} (assign : List Nat) (chunks : List α) : (livesOf assign chunks).flatten ~ chunks := by
+  unfold livesOf
+  have := foldl_putAt_flatten (fun ci : α × Nat => assign.getD ci.2 0) chunks.zipIdx []
+  simpa using this
+
+theorem retire_flatten {α} (mc : Nat) : ∀ lives : List (List α), (retire mc lives).flatten = lives.flatten
+  | [] => rfl
+  | l :: ls => by
+    have ih := retire_flatten mc ls
+    simp only [retire, flatMap_cons, flatten_append, flatten_cons] at ih ⊢
+    rw [ih, maxChunker_flatten]
+
+/-- the heap of the σ-free clean components that corresponds to a heap of the process-state model -/
+def liftHeap {S} (h : Heap S) : Heap (Nat × S) := fun l => (l, h l)
+
+/-- `copy` is what `MakeTasks` sets for this triple list -/
+def Task.copyOK (ts : List Triple) : Task → Prop
+  | .eval _ _ _ l _ _ c => c = decide (lrnCount ts l > 1)
+  | _ => True
+
+theorem copyOK_of_mem {ts : List Triple} {t : Task} (h : t ∈ makeTasks .none ts) : t.copyOK ts := by
+  cases t with
+  | eval ei e li l vi v cp => exact (mem_makeTasks_eval h).2.2
+  | _ => trivial
+
+section plc
+variable {G S P Row : Type} {cp : CompsP G S P Row} {Clean : G → Prop} (hc : ProcessLocalClean cp Clean)
+  (seed : Nat) (ts : List Triple)
+include hc
+
+theorem runTaskP_clean (σ : G) (hσ : Clean σ) (h : Heap S) (t : Task) (ht : t.copyOK ts) :
+    (runTaskP cp seed (σ, h) t).1 = (runTask (cp.clean ts) seed (liftHeap h) t).1 ∧
+    Clean (runTaskP cp seed (σ, h) t).2.1 ∧
+    liftHeap (runTaskP cp seed (σ, h) t).2.2 = (runTask (cp.clean ts) seed (liftHeap h) t).2 := by
+  cases t with
+  | env i e => exact ⟨rfl, hσ, rfl⟩
+  | lrn i e => exact ⟨rfl, hσ, rfl⟩
+  | val i e => exact ⟨rfl, hσ, rfl⟩
+  | eval ei e li l vi v c =>
+    have hcopy : c = decide (lrnCount ts l > 1) := ht
+    have he : effSeed (cp.clean ts) seed v = effSeedP cp seed v := rfl
+    by_cases hb : (c && !cp.copyable l) = true
+    · have hctrue : c = true := by cases c <;> simp_all
+      have hcop : cp.copyable l = false := by cases hcl : cp.copyable l <;> simp_all
+      have hb' : cp.blocked ts l = true := by simp [CompsP.blocked, ← hcopy, hctrue, hcop]
+      subst hctrue
+      refine ⟨?_, ?_, ?_⟩
+      · simp only [runTaskP, hb, if_true, runTask, he]
+        simp only [CompsP.clean, liftHeap, hb', if_true]
+      · simp only [runTaskP, hb, if_true]; exact hσ
+      · simp only [runTaskP, hb, if_true, runTask, he]
+    · have hb2 : (c && !cp.copyable l) = false := by simpa using hb
+      have hb' : cp.blocked ts l = false := by simpa [CompsP.blocked, ← hcopy] using hb2
+      have hsame := hc.same σ hσ v e (h l) (effSeedP cp seed v)
+      have hst := hc.stays σ hσ v e (h l) (effSeedP cp seed v)
+      refine ⟨?_, ?_, ?_⟩
+      · simp only [runTaskP, hb2, Bool.false_eq_true, if_false, runTask, he]
+        simp only [CompsP.clean, liftHeap, hb', Bool.false_eq_true, if_false, hsame]
+      · simp only [runTaskP, hb2, Bool.false_eq_true, if_false]; exact hst
+      · simp only [runTaskP, hb2, Bool.false_eq_true, if_false, runTask, he]
+        simp only [CompsP.clean, liftHeap, hb', Bool.false_eq_true, if_false, hsame]
+        cases c with
+        | true => rfl
+        | false =>
+          funext x
+          simp only [Bool.false_eq_true, if_false, Heap.set]
+          by_cases hx : x = l
+          · simp [hx, liftHeap, Heap.set]
+          · simp [hx, liftHeap, Heap.set]
+
+theorem runSeqP_clean : ∀ (tasks : List Task) (σ : G) (h : Heap S), Clean σ → (∀ t ∈ tasks, t.copyOK ts) →
+    (runSeqP cp seed (σ, h) tasks).1 = (runSeq (cp.clean ts) seed (liftHeap h) tasks).1 ∧
+    Clean (runSeqP cp seed (σ, h) tasks).2.1
+  | [], σ, h, hσ, _ => ⟨rfl, hσ⟩
+  | t :: tasks, σ, h, hσ, hts => by
+    obtain ⟨h1, h2, h3⟩ := runTaskP_clean hc seed ts σ hσ h t (hts t mem_cons_self)
+    have ih := runSeqP_clean tasks (runTaskP cp seed (σ, h) t).2.1 (runTaskP cp seed (σ, h) t).2.2 h2
+      (fun t' ht' => hts t' (mem_cons_of_mem _ ht'))
+    simp only [runSeqP, runSeq]
+    rw [h1, ← h3]
+    exact ⟨by rw [ih.1], ih.2⟩
+
+theorem runLifeP_clean : ∀ (life : List (List Task)) (σ : G), Clean σ → (∀ ch ∈ life, ∀ t ∈ ch, t.copyOK ts) →
+    (runLifeP cp seed σ life).1 = life.map (fun ch => (runSeq (cp.clean ts) seed (cp.clean ts).init ch).1) ∧
+    Clean (runLifeP cp seed σ life).2
+  | [], σ, hσ, _ => ⟨rfl, hσ⟩
+  | ch :: life, σ, hσ, hts => by
+    have h1 := runSeqP_clean hc seed ts ch σ cp.init hσ (hts ch mem_cons_self)
+    have ih := runLifeP_clean life (runSeqP cp seed (σ, cp.init) ch).2.1 h1.2
+      (fun ch' hch' => hts ch' (mem_cons_of_mem _ hch'))
+    simp only [runLifeP, map_cons]
+    exact ⟨by rw [h1.1, ih.1]; rfl, ih.2⟩
+
+theorem flatMap_runLifeP (lives : List (List (List Task))) (hts : ∀ life ∈ lives, ∀ ch ∈ life, ∀ t ∈ ch, t.copyOK ts) :
+    lives.flatMap (fun life => (runLifeP cp seed cp.σ0 life).1) =
+      lives.flatten.map (fun ch => (runSeq (cp.clean ts) seed (cp.clean ts).init ch).1) := by
+  induction lives with
+  | nil => rfl
+  | cons life lives ih =>
+    simp only [flatMap_cons, flatten_cons, map_append]
+    rw [(runLifeP_clean hc seed ts life cp.σ0 hc.fresh (hts life mem_cons_self)).1,
+      ih (fun l hl => hts l (mem_cons_of_mem _ hl))]
+
+end plc
+
+
+section plc2
+variable {G S P Row : Type} {cp : CompsP G S P Row} {Clean : G → Prop} (hc : ProcessLocalClean cp Clean)
+  (cfg : Cfg) (sched : Sched) (seed : Nat) (ts : List Triple)
+include hc
+
+omit hc in
+theorem chunksOfP_eq : chunksOfP cp cfg ts = chunksOf (cp.clean ts) cfg ts := rfl
+
+/-- with process state: under the isolation hypothesis the events of a run — in-process from any
+clean state, or on workers with any distribution of the chunks, any retirement and any interleaving
+— are, each once, the pristine events of the tasks -/
+theorem runEventsPFrom_perm (σ : G) (hσ : Clean σ) :
+    (runEventsPFrom cp cfg sched seed σ ts).1 ~ (makeTasks .none ts).map (pristineEv (cp.clean ts) seed) := by
+  have hflat := chunksOf_flatten (cp.clean ts) cfg ts
+  have hAll : AtMostOnce (chunksOf (cp.clean ts) cfg ts).flatten := (makeTasks_atMostOnce ts).perm hflat.symm
+  have hok : ∀ t ∈ (chunksOf (cp.clean ts) cfg ts).flatten, t.copyOK ts :=
+    fun t ht => copyOK_of_mem (hflat.mem_iff.1 ht)
+  unfold runEventsPFrom
+  rw [chunksOfP_eq]
+  by_cases hm : cfg.multi = true
+  · simp only [hm, if_true]
+    have hl : (retire cfg.mc (livesOf sched.assign (chunksOf (cp.clean ts) cfg ts))).flatten ~ chunksOf (cp.clean ts) cfg ts := by
+      rw [retire_flatten]; exact livesOf_flatten _ _
+    refine (interleave_perm _ _).trans ?_
+    rw [flatMap_runLifeP hc seed ts]
+    · refine ((hl.map _).flatten).trans ?_
+      rw [flatten_map_runSeq (cp.clean ts) seed _ (fun ch hch => hAll.sublist (sublist_flatten_of_mem hch))]
+      exact hflat.map _
+    · intro life hlife ch hch t ht
+      have : ch ∈ chunksOf (cp.clean ts) cfg ts := hl.mem_iff.1 (mem_flatten.2 ⟨life, hlife, hch⟩)
+      exact hok t (mem_flatten.2 ⟨ch, this, ht⟩)
+  · have hm' : cfg.multi = false := by simpa using hm
+    simp only [hm', Bool.false_eq_true, if_false]
+    rw [(runSeqP_clean hc seed ts _ σ cp.init hσ hok).1]
+    have : liftHeap cp.init = (cp.clean ts).init := rfl
+    rw [this, runSeq_pristine (cp.clean ts) seed _ _ (fun _ _ _ _ => rfl) hAll.noReuse]
+    exact hflat.map _
+
+theorem stateAfter_clean (σ : G) (hσ : Clean σ) : Clean (stateAfter cp cfg sched seed σ ts) := by
+  unfold stateAfter runEventsPFrom
+  by_cases hm : cfg.multi = true
+  · simp only [hm, if_true]; exact hσ
+  · have hm' : cfg.multi = false := by simpa using hm
+    simp only [hm', Bool.false_eq_true, if_false]
+    have hflat := chunksOf_flatten (cp.clean ts) cfg ts
+    exact (runSeqP_clean hc seed ts _ σ cp.init hσ (fun t ht => copyOK_of_mem (hflat.mem_iff.1 ht))).2
+
+/-- `run_eq_spec` with process state -/
+theorem runPFrom_eq_spec' (σ : G) (hσ : Clean σ) : runPFrom cp cfg sched seed σ ts = resultSP cp seed ts := by
+  unfold runPFrom resultSP
+  apply result_of_records_perm (cp.clean ts) cfg [] seed ts
+  unfold runRecords
+  refine Perm.cons _ (Perm.filterMap _ ?_)
+  exact (runEventsPFrom_perm hc cfg sched seed ts σ hσ).trans (runEvents_perm (cp.clean ts) cfg [] seed ts).symm
+
+theorem runLogP_perm : runLogP cp cfg sched seed ts ~
+    ((makeTasks .none ts).map (pristineEv (cp.clean ts) seed)).filterMap Ev.err? :=
+  (runEventsPFrom_perm hc cfg sched seed ts cp.σ0 hc.fresh).filterMap _
+
+end plc2
+
+/-! ### the log at full strength -/
+
+/-- the task raises when it is processed on pristine objects -/
+def Task.fails {S P Row} (c : Comps S P Row) (seed : Nat) : Task → Bool
+  | .env _ e => match c.envParams e with | .ok _ => false | .error _ => true
+  | .lrn _ l => match c.lrnParams l with | .ok _ => false | .error _ => true
+  | .val _ v => match c.valParams v with | .ok _ => false | .error _ => true
+  | .eval _ e _ l _ v _ => match evalS c seed (e, l, v) with | .ok _ => false | .error _ => true
+
+theorem pristineEv_err {S P Row} (c : Comps S P Row) (seed : Nat) (t : Task) :
+    (pristineEv c seed t).err? = if t.fails c seed then some t else none := by
+  cases t with
+  | env i e => cases h : c.envParams e <;> simp [pristineEv, runTask, paramEv, Task.fails, h, Ev.err?]
+  | lrn i e => cases h : c.lrnParams e <;> simp [pristineEv, runTask, paramEv, Task.fails, h, Ev.err?]
+  | val i e => cases h : c.valParams e <;> simp [pristineEv, runTask, paramEv, Task.fails, h, Ev.err?]
+  | eval ei e li l vi v cp =>
+    rw [pristineEv_err_eval]; cases h : evalS c seed (e, l, v) <;> simp [Task.fails, h]
+
+theorem filterMap_err_eq_filter {S P Row} (c : Comps S P Row) (seed : Nat) (tasks : List Task) :
+    (tasks.map (pristineEv c seed)).filterMap Ev.err? = tasks.filter (fun t => t.fails c seed) := by
+  induction tasks with
+  | nil => rfl
+  | cons t tasks ih =>
+    simp only [map_cons, filterMap_cons, filter_cons, pristineEv_err, ih]
+    cases t.fails c seed <;> rfl
+
+/-- `log_exact`: the log holds, each exactly once, the tasks that raise on pristine objects — a
+parameter task whose `params` raises, an evaluation task whose evaluation (wherever: read, predict,
+learn, the evaluator itself) raises — and nothing else -/
+theorem runLog_exact' {S P Row} (c : Comps S P Row) (cfg : Cfg) (picks : List Nat) (seed : Nat) (ts : List Triple) :
+    runLog c cfg picks seed ts ~ (makeTasks .none ts).filter (fun t => t.fails c seed) := by
+  rw [← filterMap_err_eq_filter]; exact runLog_perm c cfg picks seed ts
+
+theorem runLogP_exact' {G S P Row} {cp : CompsP G S P Row} {Clean : G → Prop} (hc : ProcessLocalClean cp Clean)
+    (cfg : Cfg) (sched : Sched) (seed : Nat) (ts : List Triple) :
+    runLogP cp cfg sched seed ts ~ (makeTasks .none ts).filter (fun t => t.fails (cp.clean ts) seed) := by
+  rw [← filterMap_err_eq_filter]; exact runLogP_perm hc cfg sched seed ts
+
+/-- a parameter failure is logged for exactly that object and costs exactly its parameter row -/
+theorem env_task_mem_makeTasks {ts : List Triple} {e : Nat} (he : e ∈ envsOf ts) :
+    Task.env (idOf (envsOf ts) e) e ∈ makeTasks .none ts := by
+  have h1 : e ∈ firsts (envsOf ts) := mem_firsts.2 he
+  have h2 : ((e, idOf (envsOf ts) e) : Nat × Nat) ∈ (firsts (envsOf ts)).zipIdx := by
+    rw [mem_zipIdx_iff_getElem?]
+    simp only [idOf]
+    exact getElem?_idxOf h1
+  rw [← makeTasks_env] at h2
+  obtain ⟨t, ht, h⟩ := mem_filterMap.1 h2
+  cases t with
+  | env i e' =>
+    simp only [Task.env?, Option.some.injEq, Prod.mk.injEq] at h
+    obtain ⟨rfl, rfl⟩ := h
+    exact ht
+  | _ => simp [Task.env?] at h
+
+
+section plc3
+variable {G S P Row : Type} {cp : CompsP G S P Row} {Clean : G → Prop} (hc : ProcessLocalClean cp Clean)
+  (cfg : Cfg) (sched : Sched) (seed : Nat) (ts : List Triple)
+
+theorem evalS_clean_blocked (t : Triple) (hb : cp.blocked ts t.2.1 = true) :
+    evalS (cp.clean ts) seed t = .error .raised := by
+  simp [evalS, CompsP.clean, hb]
+
+theorem evalS_clean_free (t : Triple) (hb : cp.blocked ts t.2.1 = false) :
+    evalS (cp.clean ts) seed t = (cp.evalP cp.σ0 t.2.2 t.1 (cp.init t.2.1) (effSeedP cp seed t.2.2)).1.1 := by
+  simp [evalS, CompsP.clean, hb, effSeed, effSeedP]
+
+include hc
+
+theorem rowsOf_runP' (t : Triple) (ht : t ∈ ts) :
+    (runP cp cfg sched seed ts).rowsOf (idKey ts t) =
+      match evalS (cp.clean ts) seed t with
+      | .ok rows => numbered rows
+      | .error _ => [] := by
+  rw [runP, runPFrom_eq_spec' hc cfg sched seed ts cp.σ0 hc.fresh]
+  exact rowsOf_resultS (cp.clean ts) seed ts t ht
+
+theorem failing_logged_P (t : Triple) (ht : t ∈ ts) (e : Err) (hfail : evalS (cp.clean ts) seed t = .error e) :
+    Task.eval (idKey ts t).1 t.1 (idKey ts t).2.1 t.2.1 (idKey ts t).2.2 t.2.2 (decide (lrnCount ts t.2.1 > 1))
+      ∈ runLogP cp cfg sched seed ts := by
+  rw [(runLogP_exact' hc cfg sched seed ts).mem_iff, mem_filter]
+  refine ⟨evalTask_mem_makeTasks ht, ?_⟩
+  obtain ⟨e', l', v'⟩ := t
+  simp only [Task.fails] at hfail ⊢
+  rw [hfail]
+
+/-- a learner object that cannot be copied and is listed in several triples: every one of its
+triples is reported in the log, has no rows, and no other triple is affected -/
+theorem copy_error_logged_per_triple' (t : Triple) (ht : t ∈ ts) (hb : cp.blocked ts t.2.1 = true) :
+    Task.eval (idKey ts t).1 t.1 (idKey ts t).2.1 t.2.1 (idKey ts t).2.2 t.2.2 (decide (lrnCount ts t.2.1 > 1))
+      ∈ runLogP cp cfg sched seed ts ∧
+    (runP cp cfg sched seed ts).rowsOf (idKey ts t) = [] ∧
+    ∀ t' ∈ ts, cp.blocked ts t'.2.1 = false → ∀ rows,
+      (cp.evalP cp.σ0 t'.2.2 t'.1 (cp.init t'.2.1) (effSeedP cp seed t'.2.2)).1.1 = .ok rows →
+      (runP cp cfg sched seed ts).rowsOf (idKey ts t') = numbered rows := by
+  refine ⟨failing_logged_P hc cfg sched seed ts t ht _ (evalS_clean_blocked seed ts t hb), ?_, ?_⟩
+  · rw [rowsOf_runP' hc cfg sched seed ts t ht, evalS_clean_blocked seed ts t hb]
+  · intro t' ht' hb' rows hrows
+    rw [rowsOf_runP' hc cfg sched seed ts t' ht', evalS_clean_free seed ts t' hb', hrows]
+
+/-- `second_run_eq`: a run in a process that already executed another run (any triple list, seed,
+configuration, schedule) gives what a run in a fresh process gives -/
+theorem second_run_eq' (cfg₁ : Cfg) (sched₁ : Sched) (s₁ : Nat) (ts₁ : List Triple) :
+    runPFrom cp cfg sched seed (stateAfter cp cfg₁ sched₁ s₁ cp.σ0 ts₁) ts = runP cp cfg sched seed ts := by
+  rw [runP, runPFrom_eq_spec' hc cfg sched seed ts cp.σ0 hc.fresh,
+    runPFrom_eq_spec' hc cfg sched seed ts _ (stateAfter_clean hc cfg₁ sched₁ s₁ ts₁ cp.σ0 hc.fresh)]
+
+/-- `retire_invisible`: neither `maxchunksperchild` nor the number of processes, the distribution of
+the chunks over the workers or the interleaving is visible in the result -/
+theorem retire_invisible' (cfg' : Cfg) (sched' : Sched) :
+    runP cp cfg sched seed ts = runP cp cfg' sched' seed ts := by
+  rw [runP, runP, runPFrom_eq_spec' hc cfg sched seed ts cp.σ0 hc.fresh,
+    runPFrom_eq_spec' hc cfg' sched' seed ts cp.σ0 hc.fresh]
+
+end plc3
+
+/-- `_max_chunker`: consecutive batches, none empty, none longer than `maxtasksperchunk` -/
+theorem chunker_partition' {α} (mt : Nat) (l : List α) :
+    (maxChunker mt l).flatten = l ∧ ∀ ch ∈ maxChunker mt l, ch ≠ [] ∧ (0 < mt → ch.length ≤ mt) :=
+  ⟨maxChunker_flatten mt l, maxChunker_bound mt l⟩
+
+/-! ### the parameter tables, row by row -/
+
+theorem mem_paramTable {P} (params : Nat → Except Err P) (objs : List Nat) (i : Nat) (p : P) :
+    (i, p) ∈ tableOf natLt ((firsts objs).zipIdx.filterMap (okPair params)) ↔
+      ∃ o ∈ objs, i = idOf objs o ∧ params o = .ok p := by
+  rw [mem_tableOf natLt_strictTotal _ _ (functional_zipIdx _ _), mem_filterMap]
+  constructor
+  · rintro ⟨⟨o, j⟩, hmem, hok⟩
+    simp only [okPair] at hok
+    cases hp : params o with
+    | error _ => simp [hp] at hok
+    | ok p' =>
+      simp only [hp, Option.some.injEq, Prod.mk.injEq] at hok
+      obtain ⟨rfl, rfl⟩ := hok
+      have hj := zipIdx_idxOf (firsts_nodup objs) hmem
+      rw [mem_zipIdx_iff_getElem?] at hmem
+      exact ⟨o, mem_firsts.1 (mem_of_getElem? hmem), hj.symm, hp⟩
+  · rintro ⟨o, ho, rfl, hp⟩
+    refine ⟨(o, idOf objs o), ?_, by simp [okPair, hp]⟩
+    rw [mem_zipIdx_iff_getElem?]
+    exact getElem?_idxOf (mem_firsts.2 ho)
+
+section tables
+variable {S P Row : Type} (c : Comps S P Row) (cfg : Cfg) (picks : List Nat) (seed : Nat) (ts : List Triple)
+
+theorem env_row_iff' (i : Nat) (p : P) : (i, p) ∈ (run c cfg picks seed ts).envs ↔
+    ∃ e ∈ envsOf ts, i = idOf (envsOf ts) e ∧ c.envParams e = .ok p := by
+  rw [run_eq_spec']; unfold resultS result; simp only; rw [spec_t1]; exact mem_paramTable _ _ _ _
+
+theorem lrn_row_iff' (i : Nat) (p : P) : (i, p) ∈ (run c cfg picks seed ts).lrns ↔
+    ∃ l ∈ lrnsOf ts, i = idOf (lrnsOf ts) l ∧ c.lrnParams l = .ok p := by
+  rw [run_eq_spec']; unfold resultS result; simp only; rw [spec_t2]; exact mem_paramTable _ _ _ _
+
+theorem val_row_iff' (i : Nat) (p : P) : (i, p) ∈ (run c cfg picks seed ts).vals ↔
+    ∃ v ∈ valsOf ts, i = idOf (valsOf ts) v ∧ c.valParams v = .ok p := by
+  rw [run_eq_spec']; unfold resultS result; simp only; rw [spec_t3]; exact mem_paramTable _ _ _ _
+
+theorem exp_eq' : (run c cfg picks seed ts).exp = some (metaOf seed ts) := by
+  rw [run_eq_spec']; unfold resultS result; simp only; rw [spec_t0]; rfl
+
+/-- an environment whose `params` raises is reported in the log (once) and only its own row is missing -/
+theorem env_params_failure' (e : Nat) (he : e ∈ envsOf ts) (err : Err) (hf : c.envParams e = .error err) :
+    Task.env (idOf (envsOf ts) e) e ∈ runLog c cfg picks seed ts ∧
+    ∀ p, (idOf (envsOf ts) e, p) ∉ (run c cfg picks seed ts).envs := by
+  constructor
+  · rw [(runLog_exact' c cfg picks seed ts).mem_iff, mem_filter]
+    exact ⟨env_task_mem_makeTasks he, by simp [Task.fails, hf]⟩
+  · intro p hp
+    obtain ⟨e', he', hid, hok⟩ := (env_row_iff' c cfg picks seed ts _ p).1 hp
+    have := idOf_inj he hid
+    subst this
+    rw [hf] at hok
+    cases hok
+
+end tables
+
+
+/-! ### the isolation hypothesis is forced -/
+
+/-- components whose evaluation leaks through the process state: it records the number of
+evaluations this process has seen before (finding F3 has this shape: what an earlier evaluation left
+in `learning_info` ends up in the rows of the next one) -/
+def leakyComps : CompsP Nat Nat Nat Nat :=
+  { envParams := fun e => .ok e, lrnParams := fun l => .ok l, valParams := fun v => .ok v,
+    chunkKey := fun _ => none, init := fun _ => 0, valSeed := fun _ => none, copyable := fun _ => true,
+    σ0 := 0, evalP := fun σ _ e s _ => ((.ok [e * 10 + σ], s), σ + 1) }
+
+def leakyTriples : List Triple := [(0, 0, 0), (1, 1, 0)]
+
+/-- not clean: the outcome depends on σ -/
+theorem leaky_not_clean' : ¬ ∃ Clean, ProcessLocalClean leakyComps Clean := by
+  rintro ⟨Clean, h⟩
+  have h1 := h.stays 0 h.fresh 0 0 0 0
+  have h2 := h.same 1 h1 0 0 0 0
+  simp [leakyComps] at h2
+
+theorem leaky_inprocess_ints' :
+    (runP leakyComps ⟨1, 0, 0⟩ ⟨[], []⟩ 1 leakyTriples).ints = [((0, 0, 0), 1, 0), ((1, 1, 0), 1, 11)] := by
+  decide +kernel
+
+theorem leaky_workers_ints' :
+    (runP leakyComps ⟨2, 0, 0⟩ ⟨[0, 1, 2, 3, 4, 5, 6], []⟩ 1 leakyTriples).ints = [((0, 0, 0), 1, 0), ((1, 1, 0), 1, 10)] := by
+  decide +kernel
+
+/-- one worker that is never retired behaves like the caller's process, retiring it after every chunk
+restores the fresh-process rows: `maxchunksperchild` becomes visible -/
+theorem leaky_one_worker_ints' :
+    (runP leakyComps ⟨1, 7, 0⟩ ⟨[], []⟩ 1 leakyTriples).ints = [((0, 0, 0), 1, 0), ((1, 1, 0), 1, 11)] ∧
+    (runP leakyComps ⟨1, 1, 0⟩ ⟨[], []⟩ 1 leakyTriples).ints = [((0, 0, 0), 1, 0), ((1, 1, 0), 1, 10)] := by
+  decide +kernel
+
+/-- … and a second run in the same process differs from a fresh one -/
+theorem leaky_second_run' :
+    (runPFrom leakyComps ⟨1, 0, 0⟩ ⟨[], []⟩ 1 (stateAfter leakyComps ⟨1, 0, 0⟩ ⟨[], []⟩ 1 0 leakyTriples) leakyTriples).ints
+      = [((0, 0, 0), 1, 2), ((1, 1, 0), 1, 13)] := by
+  decide +kernel
+
+
+theorem lrn_task_mem_makeTasks {ts : List Triple} {l : Nat} (hl : l ∈ lrnsOf ts) :
+    Task.lrn (idOf (lrnsOf ts) l) l ∈ makeTasks .none ts := by
+  have h2 : ((l, idOf (lrnsOf ts) l) : Nat × Nat) ∈ (firsts (lrnsOf ts)).zipIdx := by
+    rw [mem_zipIdx_iff_getElem?]; exact getElem?_idxOf (mem_firsts.2 hl)
+  rw [← makeTasks_lrn] at h2
+  obtain ⟨t, ht, h⟩ := mem_filterMap.1 h2
+  cases t with
+  | lrn i l' =>
+    simp only [Task.lrn?, Option.some.injEq, Prod.mk.injEq] at h
+    obtain ⟨rfl, rfl⟩ := h
+    exact ht
+  | _ => simp [Task.lrn?] at h
+
+theorem val_task_mem_makeTasks {ts : List Triple} {v : Nat} (hv : v ∈ valsOf ts) :
+    Task.val (idOf (valsOf ts) v) v ∈ makeTasks .none ts := by
+  have h2 : ((v, idOf (valsOf ts) v) : Nat × Nat) ∈ (firsts (valsOf ts)).zipIdx := by
+    rw [mem_zipIdx_iff_getElem?]; exact getElem?_idxOf (mem_firsts.2 hv)
+  rw [← makeTasks_val] at h2
+  obtain ⟨t, ht, h⟩ := mem_filterMap.1 h2
+  cases t with
+  | val i v' =>
+    simp only [Task.val?, Option.some.injEq, Prod.mk.injEq] at h
+    obtain ⟨rfl, rfl⟩ := h
+    exact ht
+  | _ => simp [Task.val?] at h
+
+section tables2
+variable {S P Row : Type} (c : Comps S P Row) (cfg : Cfg) (picks : List Nat) (seed : Nat) (ts : List Triple)
+
+theorem lrn_params_failure' (l : Nat) (hl : l ∈ lrnsOf ts) (err : Err) (hf : c.lrnParams l = .error err) :
+    Task.lrn (idOf (lrnsOf ts) l) l ∈ runLog c cfg picks seed ts ∧
+    ∀ p, (idOf (lrnsOf ts) l, p) ∉ (run c cfg picks seed ts).lrns := by
+  constructor
+  · rw [(runLog_exact' c cfg picks seed ts).mem_iff, mem_filter]
+    exact ⟨lrn_task_mem_makeTasks hl, by simp [Task.fails, hf]⟩
+  · intro p hp
+    obtain ⟨l', hl', hid, hok⟩ := (lrn_row_iff' c cfg picks seed ts _ p).1 hp
+    have := idOf_inj hl hid
+    subst this
+    rw [hf] at hok
+    cases hok
+
+theorem val_params_failure' (v : Nat) (hv : v ∈ valsOf ts) (err : Err) (hf : c.valParams v = .error err) :
+    Task.val (idOf (valsOf ts) v) v ∈ runLog c cfg picks seed ts ∧
+    ∀ p, (idOf (valsOf ts) v, p) ∉ (run c cfg picks seed ts).vals := by
+  constructor
+  · rw [(runLog_exact' c cfg picks seed ts).mem_iff, mem_filter]
+    exact ⟨val_task_mem_makeTasks hv, by simp [Task.fails, hf]⟩
+  · intro p hp
+    obtain ⟨v', hv', hid, hok⟩ := (val_row_iff' c cfg picks seed ts _ p).1 hp
+    have := idOf_inj hv hid
+    subst this
+    rw [hf] at hok
+    cases hok
+
+/-- a parameter failure costs no interaction row: the rows of every triple are still those of `evalS` -/
+theorem params_failure_keeps_rows' (t : Triple) (ht : t ∈ ts) :
+    (run c cfg picks seed ts).rowsOf (idKey ts t) =
+      match evalS c seed t with
+      | .ok rows => numbered rows
+      | .error _ => [] := rowsOf_run' c cfg picks seed ts t ht
+
+end tables2
+
+theorem rows_alone_P' {G S P Row : Type} {cp : CompsP G S P Row} {Clean : G → Prop} (hc : ProcessLocalClean cp Clean)
+    (cfg : Cfg) (sched : Sched) (seed : Nat) (t : Triple) :
+    (runP cp cfg sched seed [t]).rowsOf (0, 0, 0) =
+      match (cp.evalP cp.σ0 t.2.2 t.1 (cp.init t.2.1) (effSeedP cp seed t.2.2)).1.1 with
+      | .ok rows => numbered rows
+      | .error _ => [] := by
+  have h := rowsOf_runP' hc cfg sched seed [t] t (mem_singleton.2 rfl)
+  rw [idKey_singleton] at h
+  have hb : cp.blocked [t] t.2.1 = false := by
+    obtain ⟨e, l, v⟩ := t
+    simp [CompsP.blocked, lrnCount]
+  rw [evalS_clean_free seed [t] t hb] at h
+  exact h
+
+theorem workers_partition_chunks' {α} (mc : Nat) (assign : List Nat) (chunks : List α) :
+    (retire mc (livesOf assign chunks)).flatten ~ chunks := by
+  rw [retire_flatten]; exact livesOf_flatten assign chunks
+
 end Coba.C01
